@@ -523,6 +523,9 @@ func (r *rewriter) rewriteGo(n *ast.GoStmt) ast.Stmt {
 		call.Fun = ast.NewIdent(t.Name)
 	}
 	for i, a := range call.Args {
+		if tv, ok := r.info.Types[a]; ok && (tv.IsNil() || tv.Value != nil) {
+			continue // untyped nil and constants stay in place: `g := nil` is not Go, `g := 1` has the wrong type for an int64 parameter
+		}
 		t := r.tmp("g")
 		lhs = append(lhs, t)
 		rhs = append(rhs, a)
